@@ -62,6 +62,12 @@ type Config struct {
 	Pods          []PodSpec `json:"pods"`
 	CallLatencyMs int       `json:"call_latency_ms"`
 	PatchPodIPs   bool      `json:"patch_pod_ips"`
+	// Recycle: the cloud hands out again, lowest first, addresses the daemon has released
+	// (otherwise every assignment yields an address never seen before in the run)
+	Recycle bool `json:"recycle,omitempty"`
+	// Legacy: at a restart the stored records are rewritten in the shape an older daemon left
+	// behind (no interface id, address only inside the resource id); IPv4-only nodes
+	Legacy bool `json:"legacy,omitempty"`
 }
 
 func (c *Config) v4() bool { return c.Stack == "v4" || c.Stack == "dual" }
@@ -139,6 +145,7 @@ type podState struct {
 	ackAdd       bool
 	ackV4, ackV6 string
 	ackDel       bool
+	elsewhere    bool // an object with this name exists on another node
 	leaked       bool
 	leakedRec    bool
 	poolIntact   bool // the daemon's pool still owns what its record for the pod names (model)
@@ -468,6 +475,10 @@ func (w *World) podObject(p *podState) *corev1.Pod {
 }
 
 func (w *World) createPodObject(p *podState) {
+	if p.elsewhere {
+		_ = w.api.Inner.Delete(context.Background(), &corev1.Pod{ObjectMeta: metav1.ObjectMeta{Name: p.spec.Name, Namespace: ns}})
+		p.elsewhere = false
+	}
 	p.uidGen++
 	p.uid = fmt.Sprintf("uid-%s-%d", p.spec.Name, p.uidGen)
 	p.exists = true
@@ -475,6 +486,17 @@ func (w *World) createPodObject(p *podState) {
 	if err := w.api.Inner.Create(context.Background(), w.podObject(p)); err != nil {
 		panic(fmt.Sprintf("harness: create pod: %v", err))
 	}
+}
+
+// movePodObject re-creates the pod (same name, new UID) on another node: for this node it is gone.
+func (w *World) movePodObject(p *podState) {
+	w.deletePodObject(p)
+	p.uidGen++
+	pod := w.podObject(p)
+	pod.UID = k8stypes.UID(fmt.Sprintf("uid-%s-%d-elsewhere", p.spec.Name, p.uidGen))
+	pod.Spec.NodeName = "node-2"
+	_ = w.api.Inner.Create(context.Background(), pod)
+	p.elsewhere = true
 }
 
 func (w *World) deletePodObject(p *podState) {
